@@ -373,6 +373,10 @@ def check(run):
         # dense early-exit shapes: return / raise inside try inside branches, with code after them
         ('return-try', progs.Opts(loop_else=False, reads='safe', max_stmts=12, max_depth=4, fresh_for_targets=True,
                                   only={'if', 'try', 'return', 'raise', 'expr', 'while'}), 0.2),
+        # return statements whose value raises while being evaluated, inside try statements that go on afterwards
+        ('return-raises', progs.Opts(loop_else=False, reads='safe', max_stmts=12, max_depth=4, fresh_for_targets=True, mutation=True,
+                                     raising_return=True, append=False,
+                                     only={'if', 'try', 'return', 'retattr', 'expr', 'while', 'for', 'attr'}), 0.12),
         # for-loop targets that are also assigned elsewhere: the shape of the known finding (root cause C07)
         ('for-target-reuse', progs.Opts(loop_else=False, reads='safe', max_stmts=14), 0.1),
     ]
